@@ -5,6 +5,7 @@ import (
 	_ "verifsim/worlds/circfile"
 	_ "verifsim/worlds/compiledet"
 	_ "verifsim/worlds/conn"
+	_ "verifsim/worlds/corrupt"
 	_ "verifsim/worlds/gmwworld"
 	_ "verifsim/worlds/kos"
 	_ "verifsim/worlds/leak"
